@@ -24,13 +24,15 @@ def plan(prop, tier, seed):
             shards = [[s, str(i), str(nb), "quick", "bp"] for i in range(nb)]
             # FSST above the 32 KiB threshold is expensive under Miri: highly compressible kinds only
             # (measured: ~3 min for one 33 KB "repeat" array, > 15 min for kinds with many symbols)
-            for j, kind in enumerate(["repeat", "below", "empty"]):
-                shards.append([s, str(j), "3", "quick", "fsst", kind])
-            return "san28", shards, 900
+            # and 10-25 min for a 33 KB array with ~255 symbols such as the structured token corpora; that one runs
+            # in parallel with everything else and decides the wall time of the leg)
+            for j, kind in enumerate(["repeat", "below", "empty", "tokens"]):
+                shards.append([s, str(j), "4", "quick", "fsst", kind])
+            return "san28", shards, 2400
         nb = 12
         shards = [[s, str(i), str(nb), "thorough", "bp"] for i in range(nb)]
         kinds = ["text", "random", "all256", "repeat", "small", "huge", "boundary", "esc", "chunk511",
-                 "mixed", "below", "empty", "skewed", "prefixes"]
+                 "mixed", "below", "empty", "skewed", "prefixes", "tokens", "tokens511", "tokens_edge"]
         for j, kind in enumerate(kinds):
             shards.append([s, str(j), str(len(kinds)), "quick", "fsst", kind])
         return "san28", shards, 5400
